@@ -38,15 +38,15 @@ class C03(Prop):
     def impl_driver(self, ctx):
         return demodlib.drivers()[0]
 
-    def explore(self, ctx, demod, mod, n, lengths):
+    def explore(self, ctx, demod, mod, n, lengths, stress=0):
         rng = ctx.rng
         alph = S.ALPH[1:]
-        for k in range(n):
+        for k in range(n + stress):
             src = "".join(rng.choice(alph) for _ in range(rng.randrange(1, 10)))
             dst = "" if rng.random() < 0.15 else "".join(rng.choice(alph) for _ in range(rng.randrange(1, 10)))
             can = rng.randrange(16)
-            nfr = rng.choice(lengths)
-            kind = rng.random()
+            nfr = rng.choice(lengths) if k < n else 300
+            kind = rng.random() if k < n else 0.0
             if kind < 0.6:
                 audio = [rng.randrange(-8000, 8000) for _ in range(320 * nfr)]
             elif kind < 0.8:
@@ -60,8 +60,11 @@ class C03(Prop):
                 p = {"gain": rng.choice([300, 1000, 3500, rng.randrange(300, 3501)]), "dc": rng.randrange(-300, 301), "sigma": rng.choice([0, 5, 20, 50]),
                      "delay": rng.randrange(1000), "ppm": rng.choice([-200, 200, 0, rng.randrange(-200, 201)]), "lead": rng.randrange(6),
                      "leadn": rng.choice([0, 0, 137, 1920, 5000, 48000]), "level": rng.choice([0, 10, 100, 1000, 5000]), "seed": rng.randrange(10 ** 6), "app": 0}
+                if k >= n:
+                    # corners of the envelope held for a whole 12 s transmission: clock error at its limits, amplitude at both ends
+                    p.update(gain=[300, 3500, 300][trial], ppm=[200, -200, -200][trial], sigma=rng.choice([0, 20]), lead=rng.choice([0, 1]), leadn=rng.choice([0, 1920]))
                 pre = []
-                if rng.random() < 0.2:
+                if rng.random() < 0.2 and k < n:
                     a2 = [rng.randrange(-8000, 8000) for _ in range(320 * 6)]
                     prev, _, _ = demodlib.transmission(ctx, mod, "N0CALL", "", 3, a2)
                     pre = prev[:rng.randrange(2000, len(prev) + 1)] + [0] * rng.choice([0, 480, 9600])
@@ -154,7 +157,7 @@ class C03(Prop):
         demod, mod = demodlib.drivers()
         quick = ctx.tier == "quick"
         self.traces(ctx, demod, mod, 8 if quick else 60)
-        self.explore(ctx, demod, mod, 10 if quick else 150, [20, 40, 60, 120] if quick else [20, 40, 60, 120, 300])
+        self.explore(ctx, demod, mod, 10 if quick else 150, [20, 40, 60, 120] if quick else [20, 40, 60, 120, 300], stress=2 if quick else 20)
 
 
 PROP = C03()
